@@ -152,7 +152,7 @@ def merge_vcs(env, want):
             if not exc_is(I, e, 'IncompatibleSignatures'):
                 # plain ValueError: only allowed when the inputs are not role-consistent
                 out.append(VC(C_ONLY_VE.full + ':incompatible_on_role_consistent', [rc], z3.BoolVal(False), C_ONLY_VE.props))
-        if on(C_RAISE_NOCOMMON) and exc_is(I, e, 'IncompatibleSignatures'):
+        if on(C_RAISE_NOCOMMON) and exc_is(I, e, 'IncompatibleSignatures') and len(infos) == 2:
             out.append(VC(C_RAISE_NOCOMMON.full, ccons + [aligned] + acc_inputs(), z3.BoolVal(False), C_RAISE_NOCOMMON.props))
         return out
 
@@ -172,7 +172,7 @@ def merge_vcs(env, want):
     nonc = spec.noncolliding(Z3Ops, resv, in_views, call)
     if on(C_SOUND_MIXED):
         out.append(VC(C_SOUND_MIXED.full, ccons + [rc, nonc, a_res], z3.And(*acc_inputs()), C_SOUND_MIXED.props))
-    if on(C_EXACT):
+    if on(C_EXACT) and len(infos) == 2:      # the property states exactness for pairs; triples: fold law
         out.append(VC(C_EXACT.full, ccons + [aligned, nonc] + acc_inputs(), a_res, C_EXACT.props))
     if on(C_WF):
         ok = all(isinstance(p, Inst) and UP in p._cls.mro for p in rparams)
